@@ -313,6 +313,12 @@ class Run:
                 kw = {}
                 if sc.methods2:
                     kw['interface'] = sc.iface_name if call['which'] == 1 else sc.iface2_name
+                # the keyword arguments a caller may add do not change what the call does
+                extra = [{}, {}, {'autoStart': False}, {'timeout': 50000.0}, {'autoStart': False, 'timeout': 50000.0},
+                         {'expectReply': True}][(sc.idx + call['k']) % 6]
+                kw.update(extra)
+                if extra:
+                    ctx.count('calls_with_extra_keywords')
                 d = prox.callRemote(call['method'], *call['args'], **kw)
             except Exception as e:
                 ctx.report('callremote-raised', 'proxy.callRemote(%s) raised %r for a declared method and conforming '
